@@ -11,7 +11,7 @@ LEAN_TB = [
 ]
 
 # driver commands answered by an independent specification (Bita/Spec/*), not by the model of the code
-SPEC_CMDS = {"chunk-spec", "http-spec", "runs"}
+SPEC_CMDS = {"chunk-spec", "http-spec", "runs", "plan-safe"}
 
 L1 = os.path.join(core.TARGET, "debug", "l1")
 
